@@ -356,6 +356,95 @@ fn scenario_strings(which: usize) -> (u64, Vec<V>) {
     (c.steps, c.out)
 }
 
+/// create_table when the pool has room for only `free` more strings: the
+/// call needs new strings for three catalog tables one after the other, so the
+/// limit can be hit after the first of them has been written.
+fn scenario_create_table_near_string_limit(free: usize) -> (u64, Vec<V>) {
+    let name = format!("strings/create-table-with-{}-free-entries", free);
+    let mk_db = |n: usize| -> enc::EncDb {
+        let rows: Vec<Vec<Val>> = (0..n).map(|i| vec![Val::Int(i as i32 + 1), Val::Str(format!("s{:05}", i))]).collect();
+        enc::EncDb {
+            ptype: 0,
+            codepage_id: 65001,
+            long_refs: false,
+            pool_style: enc::PoolStyle::Dense,
+            with_validation: true,
+            row_order: enc::RowOrder::Ascending,
+            tables: vec![enc::EncTable {
+                name: "S".into(),
+                cols: vec![enc::EncCol { spec: ColSpec::new("K", Ty::I32).key(), width1_quirk: false }, enc::EncCol { spec: ColSpec::new("V", Ty::Str(0)).nullable(), width1_quirk: false }],
+                rows,
+            }],
+            streams: vec![],
+            summary: enc::default_summary(),
+            extra_pool_strings: vec![],
+            ghost_strings: vec![],
+        }
+    };
+    let p0 = dec::decode(&enc::encode(&mk_db(0))).expect("decode").pool.len();
+    let preload = 65535usize - free - p0;
+    let bytes = enc::encode(&mk_db(preload));
+    let mut out: Vec<V> = Vec::new();
+    let mut h = match Harness::open(bytes) {
+        Ok(h) => h,
+        Err(e) => return (0, vec![("strings:preloaded-database-refused".into(), e)]),
+    };
+    let fail = |out: &mut Vec<V>, class: &str, detail: String| out.push((format!("strings:{}", class), format!("[{}] {}", name, detail)));
+    // the catalog as the API shows it (the 65 k rows of S are summarised)
+    let observe = |h: &mut Harness| -> Result<(Vec<String>, Vec<Vec<Val>>, Vec<Vec<Val>>, Vec<Vec<Val>>, usize), String> {
+        crate::report::catch(|| {
+            let p = h.p();
+            let tables: Vec<String> = p.tables().map(|t| t.name().to_string()).collect();
+            let mut get = |t: &str| -> Vec<Vec<Val>> { p.select_rows(msi::Select::table(t)).map(|rows| rows.map(|r| (0..r.len()).map(|i| Val::from_msi(&r[i])).collect()).collect()).unwrap_or_default() };
+            let a = get("_Tables");
+            let b = get("_Columns");
+            let c = get("_Validation");
+            let n = p.select_rows(msi::Select::table("S")).map(|r| r.count()).unwrap_or(usize::MAX);
+            (tables, a, b, c, n)
+        })
+    };
+    let create = Op::CreateTable {
+        name: "Nw".into(),
+        cols: vec![ColSpec::new("K", Ty::I16).key(), ColSpec::new("Ee", Ty::Str(8)).nullable().category("Cabinet").enums(&["pp", "qq"]), ColSpec::new("Ff", Ty::Str(8)).nullable().category("Shortcut")],
+    };
+    let before = observe(&mut h);
+    let mut steps = 1u64;
+    match h.apply(&create) {
+        Outcome::Panic(p) => fail(&mut out, &format!("panic:create_table:{}", crate::report::panic_site(&p)), format!("create_table panicked: {}", p)),
+        Outcome::Err(e) => {
+            if h.pkg.is_none() {
+                fail(&mut out, "package-lost:create_table", e);
+                return (steps, out);
+            }
+            let after = observe(&mut h);
+            if before != after {
+                let (b, a) = (before.as_ref().map(|x| x.0.clone()), after.as_ref().map(|x| x.0.clone()));
+                fail(&mut out, "error-but-changed:create_table", format!("create_table returned an error ({}) but the catalog changed: tables {:?} -> {:?}; _Columns rows {:?} -> {:?}", e, b, a, before.as_ref().map(|x| x.2.len()), after.as_ref().map(|x| x.2.len())));
+                return (steps, out);
+            }
+        }
+        Outcome::Ok => {
+            let after = observe(&mut h);
+            if !after.as_ref().map(|x| x.0.contains(&"Nw".to_string())).unwrap_or(false) {
+                fail(&mut out, "accepted-but-missing:create_table", "create_table returned Ok but the table is not listed".into());
+            }
+        }
+    }
+    // whatever happened, the package must save and reopen to what it shows now
+    steps += 1;
+    let now = observe(&mut h);
+    match h.close_into_inner().and_then(Harness::open) {
+        Err(e) => fail(&mut out, "saved-file-refused-by-the-library", format!("after create_table at the string limit the saved file does not reopen: {}", e)),
+        Ok(mut h2) => {
+            let re = observe(&mut h2);
+            if re != now {
+                fail(&mut out, "reopened-catalog-differs", format!("after create_table at the string limit and a reopen the catalog differs: tables {:?} -> {:?}", now.as_ref().map(|x| x.0.clone()), re.as_ref().map(|x| x.0.clone())));
+            }
+        }
+    }
+    (steps, out)
+}
+
 /// Two limits at once: the pool is full (65535 entries) and one string has
 /// 65534 references; further references to it need a second entry.
 fn scenario_strings_and_refs(which: usize) -> (u64, Vec<V>) {
@@ -591,6 +680,9 @@ pub fn run(tier: Tier) -> i32 {
     for w in 0..2 {
         jobs.push(Box::new(move || scenario_strings_and_refs(w)));
     }
+    for free in 0..=8 {
+        jobs.push(Box::new(move || scenario_create_table_near_string_limit(free)));
+    }
     for n in [1usize, 31, 32, 33, 34, 64] {
         jobs.push(Box::new(move || scenario_columns(n)));
     }
@@ -619,7 +711,7 @@ pub fn run(tier: Tier) -> i32 {
     rep.set("distinct_nontrivial", jobs.len());
     rep.set("scenarios", jobs.len());
     rep.set("exhaustive", true);
-    rep.set("rule", "limits: rows per table (65535 / 65536 / 65537 in one batch, in two calls, across a reopen, after deletions; 40000 string keys), distinct strings with 2-byte references (pre-loaded to L-2 by the independent encoder, then L-1, L, L+1 through the API; replace at L; free then reuse; batch overshoot), references to one string (65534 / 65535 / 65536 cells, incremental + release; exact accounting by the independent decoder), columns per table (1, 31..34, 64), table / column / stream name lengths around 31/32, 60/61, 62/63, 64/65. distinct_nontrivial = scenarios (each a distinct boundary)");
+    rep.set("rule", "limits: rows per table (65535 / 65536 / 65537 in one batch, in two calls, across a reopen, after deletions; 40000 string keys), distinct strings with 2-byte references (pre-loaded to L-2 by the independent encoder, then L-1, L, L+1 through the API; replace at L; free then reuse; batch overshoot; create_table with 0..8 free entries left), references to one string (65534 / 65535 / 65536 cells, incremental + release; exact accounting by the independent decoder), columns per table (1, 31..34, 64), table / column / stream name lengths around 31/32, 60/61, 62/63, 64/65. distinct_nontrivial = scenarios (each a distinct boundary)");
     rep.sample(json!({"scenario": "rows/two-calls", "calls": ["insert 65535 rows", "insert 1 row", "insert 1 row (65537th)", "save+reopen", "insert 1 row", "save+reopen"]}));
     rep.finish()
 }
